@@ -843,7 +843,7 @@ for (a, b) in NEAR_PAIRS + FAR_PAIRS:
            "score_strings_internal", "score_strings_raw_internal", "is_equiv_except_block_size", "block_size::compare_sizes"],
       assumptions=[ASSUME_SYM, "both hashes valid and normalized (spec_valid)"])
     K("c10_c_s_m8_%d_%d" % (a, b), "C10", M_CMP, cfg="release",
-      tiers=("quick", "thorough") if ((a, b) in C02_QUICK and a != b) else ("thorough",), cap=(900, 3000), cost=500, mem=12,
+      tiers=("quick", "thorough") if (a, b) == (0, 2) else ("thorough",), cap=(900, 3000), cost=500, mem=12,
       unwindset=C02_RULES, shape="BMC",
       bound="score > 0 <=> equal or candidate; candidate <=> index windows intersect; block sizes (3<<%d, 3<<%d), "
             "block hashes <= 8 symbols" % (a, b),
@@ -960,6 +960,24 @@ def c14(name, base_module, fn, cfg, tiers, cap, cost, bound, enc, unwindset=None
 C14_CFGS_Q = ["unsafe-release", "fnv", "strict", "nodefault"]
 C14_CFGS_T = ["default", "release", "unsafe", "unsafe-release", "unchecked", "unchecked-release", "fnv", "fnv-release",
               "unsafe-fnv", "unsafe-fnv-release", "strict", "strict-release", "nodefault", "nodefault-release"]
+# Quick tier: the cheap queries run in all four quick configurations; the three expensive ones (250-530 s each) run
+# only in the configurations whose feature changes code they execute -- the parser driver and the block-hash field
+# kernel under `unsafe` (release) and `strict-parser`, the generator step under `unsafe` (release) and
+# `opt-reduce-fnv-table`.  (alloc/std, i.e. `nodefault`, add I/O and String conveniences only; the FNV table is not
+# used by the parser; strict-parser does not touch the generator.)  The thorough tier runs every query in all 14.
+C14_HEAVY_Q = {"bh32_norm": ("unsafe-release", "strict"), "driver_short_norm_t8": ("unsafe-release", "strict"),
+               "gen_step_3_5": ("unsafe-release", "fnv")}
+_c14_plain = c14
+
+
+def c14(name, base_module, fn, cfg, tiers, *a, **kw):
+    if "quick" in tiers and name in C14_HEAVY_Q and cfg not in C14_HEAVY_Q[name]:
+        tiers = tuple(t for t in tiers if t != "quick")
+    if not tiers:
+        return None
+    return _c14_plain(name, base_module, fn, cfg, tiers, *a, **kw)
+
+
 for cfg in C14_CFGS_T:
     tq = ("quick", "thorough") if cfg in C14_CFGS_Q else ("thorough",)
     c14("fnv_step", M_FNV, "c19_fnv_step_any_internal_byte", cfg, tq, (300, 600), 10,
@@ -969,7 +987,11 @@ for cfg in C14_CFGS_T:
     c14("bh32_norm", M_ALG, "c04_bh32_t12_norm", cfg, tq, (600, 1200), 80,
         "block hash field kernel ::<32> collapsing, <= 12 bytes", ["parse_block_hash_from_bytes::<_,32>"],
         unwindset=alg_rules(n_text=14))
-    c14("driver_short_norm", M_HASH, "c04_driver_short_norm_t10", cfg, tq, (900, 2400), 300,
+    # quick: texts <= 8 bytes (400 s in the slowest configuration); thorough: <= 10 bytes (530 s)
+    c14("driver_short_norm_t8", M_HASH, "c04_driver_short_norm_t8", cfg, ("quick",) if "quick" in tq else (), (900, 0), 300,
+        "from_bytes of the short normalizing type, <= 8 bytes", ["FuzzyHashData::from_bytes_with_last_index"],
+        unwindset=alg_rules(n_text=10, n_verify=10))
+    c14("driver_short_norm", M_HASH, "c04_driver_short_norm_t10", cfg, ("thorough",), (900, 2400), 300,
         "from_bytes of the short normalizing type, <= 10 bytes", ["FuzzyHashData::from_bytes_with_last_index"],
         unwindset=alg_rules(n_text=12, n_verify=12))
     c14("driver_short_raw", M_HASH, "c04_driver_short_raw_t10", cfg, ("thorough",), (900, 2400), 300,
@@ -985,8 +1007,11 @@ for cfg in C14_CFGS_T:
         "edit distance vs DP, strings <= 4", ["edit_distance_internal"], unwindset=pa_rules(n_ed=5))
     c14("store", M_HASH, "c05_store_short_raw_m8", cfg, ("thorough",), (900, 1800), 300,
         "store_into_bytes, block hashes <= 8", ["FuzzyHashData::store_into_bytes"], unwindset=alg_rules(n_insert=10))
+    # quick: active range [3,5) (two levels); thorough: the three-level ranges as well
+    c14("gen_step_3_5", M_GEN, "c01_step_3_5", cfg, ("quick",) if "quick" in tq else (), (900, 0), 200,
+        "generator inductive step, active range [3,5)", GEN_ENC, gen={"kind": "c01_step", "st": 3, "en": 5})
     for (st, en) in [(0, 2), (3, 6), (29, 31)]:
-        tqq = tq if (st, en) == (3, 6) else ("thorough",)
+        tqq = ("thorough",)
         c14("gen_step_%d_%d" % (st, en), M_GEN, "c01_step_%d_%d" % (st, en), cfg, tqq, (900, 2400), 400,
             "generator inductive step, active range [%d,%d)" % (st, en), GEN_ENC,
             gen={"kind": "c01_step", "st": st, "en": en})
@@ -1067,7 +1092,7 @@ LEVEL_TEXT = {
     "C13": "Complete-domain queries for the block-size border arithmetic (every size 0..=192GiB+1) and the C01 inductive "
            "queries for the ranges that reach index 30 and the last-piece hash.",
     "C14": "The same queries re-run per feature set x debug-assertion setting against the same reference models "
-           "(quick: 4 configurations x 6 queries; thorough: 14 configurations).",
+           "(quick: 4 configurations, cheap queries in all of them, the parser and generator queries in the two configurations each whose feature changes that code; thorough: every query in 14 configurations).",
     "C15": "Bounded model checking per conversion edge on symbolic valid sources and dirty destinations (plain edges at "
            "full capacity in the thorough tier).",
     "C16": "Bounded model checking of Eq / Hash / Ord on symbolic pairs and triples against the documented order "
@@ -1192,7 +1217,7 @@ K("c11_dual_parser_valid_tail", "C11", M_DUAL, fn="c04_dual_capacity_bh2_short_t
   enc=["FuzzyHashDualData::from_bytes_with_last_index"])
 
 for (a, b) in [(3, 3), (30, 30)]:
-    K("c10_c_s_m7a4_%d_%d" % (a, b), "C10", M_CMP, cfg="release", tiers=("quick",), cap=(1500, 0), cost=300, mem=12, unwindset=C02_RULES, shape="BMC",
+    K("c10_c_s_m7a4_%d_%d" % (a, b), "C10", M_CMP, cfg="release", tiers=("thorough",), cap=(1500, 3000), cost=600, mem=12, unwindset=C02_RULES, shape="BMC",
       bound="score > 0 <=> equal or candidate; candidate <=> index windows intersect; equal block sizes (3<<%d), block hashes <= 7 symbols over a 4-symbol alphabet" % a,
       enc=["FuzzyHashCompareTarget::is_comparison_candidate(_near_eq)", "compare", "block_hash_{1,2}_index_windows"],
       assumptions=[ASSUME_SYM, "both hashes valid and normalized (spec_valid)"])
@@ -1200,6 +1225,37 @@ for (a, b) in [(3, 3), (30, 30)]:
       bound="score > 0 <=> equal or candidate; candidate <=> index windows intersect; equal block sizes (3<<%d), block hashes <= 7 symbols" % a,
       enc=["FuzzyHashCompareTarget::is_comparison_candidate(_near_eq)", "compare", "block_hash_{1,2}_index_windows"],
       assumptions=[ASSUME_SYM, "both hashes valid and normalized (spec_valid)"])
+# C10 quick tier (round 2): the whole-obligation queries c10_c_s_m8_* need 520-640 s each on this machine, which is
+# too long for the per-change tier.  The same obligation is decided as two independent halves per block-size pair --
+# (w) candidate <=> index windows intersect (general and near_* forms), without the score computation, and
+# (p) score > 0 <=> same content or candidate -- each 160-290 s, run in parallel.  Equal block sizes (two block-hash
+# comparisons, 490-590 s even split) are covered in the quick tier with ONE block hash free and the other concretely
+# empty on both sides; the two-free-block-hash form stays in the thorough tier (c10_c_s_m8_n_n, c10_c_s_m7_*,
+# c10_w_s_m8_3_3, c10_p_s_m7a4_3_3).
+C10_ENC_W = ["FuzzyHashCompareTarget::is_comparison_candidate(_near_*)", "has_common_substring_internal",
+             "block_hash_{1,2}_index_windows"]
+C10_ENC_P = ["FuzzyHashCompareTarget::compare", "is_comparison_candidate", "score_strings_internal"]
+for (a, b) in [(3, 4), (30, 29)]:
+    K("c10_w_s_m8_%d_%d" % (a, b), "C10", M_CMP, cfg="release", cap=(900, 2400), cost=300, mem=12, unwindset=C02_RULES, shape="BMC",
+      bound="candidate <=> index windows intersect (general form and near_lt / near_gt form); block sizes (3<<%d, 3<<%d), "
+            "block hashes <= 8 symbols over 64 symbols" % (a, b),
+      enc=C10_ENC_W, assumptions=[ASSUME_SYM, "both hashes valid and normalized (spec_valid)"])
+    K("c10_p_s_m8_%d_%d" % (a, b), "C10", M_CMP, cfg="release", cap=(900, 2400), cost=280, mem=12, unwindset=C02_RULES, shape="BMC",
+      bound="score > 0 <=> same content or candidate; block sizes (3<<%d, 3<<%d), block hashes <= 8 symbols over 64 symbols" % (a, b),
+      enc=C10_ENC_P, assumptions=[ASSUME_SYM, "both hashes valid and normalized (spec_valid)"])
+for (nm, enc, what) in [("c10_w_s_m8_eq1_3", C10_ENC_W, "candidate <=> index windows intersect (general and near_eq form); equal block sizes 3<<3, block hash 1 <= 8 symbols, block hash 2 empty on both sides"),
+                        ("c10_w_s_m8_eq2_30", C10_ENC_W, "candidate <=> index windows intersect (general and near_eq form); equal block sizes 3<<30, block hash 2 <= 8 symbols, block hash 1 empty on both sides"),
+                        ("c10_p_s_m8_eq1_30", C10_ENC_P, "score > 0 <=> same content or candidate, same content => 100; equal block sizes 3<<30, block hash 1 <= 8 symbols, block hash 2 empty on both sides"),
+                        ("c10_p_s_m8_eq2_3", C10_ENC_P, "score > 0 <=> same content or candidate, same content => 100; equal block sizes 3<<3, block hash 2 <= 8 symbols, block hash 1 empty on both sides")]:
+    K(nm, "C10", M_CMP, cfg="release", cap=(900, 2400), cost=250, mem=12, unwindset=C02_RULES, shape="BMC", bound=what,
+      outside="equal block sizes with both block hashes non-empty are decided in the thorough tier (c10_c_s_m8_n_n, c10_c_s_m7_n_n)",
+      enc=enc, assumptions=[ASSUME_SYM, "both hashes valid and normalized (spec_valid)"])
+K("c10_w_s_m8_3_3", "C10", M_CMP, cfg="release", tiers=("thorough",), cap=(0, 3000), cost=600, mem=12, unwindset=C02_RULES, shape="BMC",
+  bound="candidate <=> index windows intersect (general and near_eq form); equal block sizes 3<<3, block hashes <= 8 symbols",
+  enc=C10_ENC_W, assumptions=[ASSUME_SYM])
+K("c10_p_s_m7a4_3_3", "C10", M_CMP, cfg="release", tiers=("thorough",), cap=(0, 3000), cost=500, mem=12, unwindset=C02_RULES, shape="BMC",
+  bound="score > 0 <=> same content or candidate; equal block sizes 3<<3, block hashes <= 7 symbols over 4 symbols",
+  enc=C10_ENC_P, assumptions=[ASSUME_SYM])
 K("c11_conversions_dirty_dest_m16", "C11", M_HASH, fn="c15_short_long_raw_m16", cfg="release", cap=(600, 2400), cost=200, mem=12, shape="inductive step",
   bound="short<->long conversions into ARBITRARY (previously used) destinations give valid objects; block hashes <= 16",
   enc=["to_long_form", "into_mut_long_form", "try_into_mut_short", "TryFrom"], assumptions=["source valid (spec_valid)"])
